@@ -96,7 +96,7 @@ def _val(draw, depth, vars_, counter):
         if k == 7:
             return f"({draw(_val(depth - 1, vars_, counter))} if {draw(_val(depth - 1, vars_, counter))} > 0 else {draw(_val(depth - 1, vars_, counter))})"
         if k == 8:
-            return draw(st.sampled_from(["{A}[{B}]", "{A}[{B}:]", "-{A} < {B}", "func(*{A}, **{B})", "pick({A})({B})", "(not {A}) or {B}"])) \
+            return draw(st.sampled_from(["{A}[{B}]", "{A}[{B}:]", "-{A} < {B}", "func(*({A}), **({B}))", "pick({A})({B})", "(not {A}) or {B}"])) \
                 .replace("{A}", draw(_val(depth - 1, vars_, counter))).replace("{B}", draw(_val(depth - 1, vars_, counter)))
         if k == 9:
             w = draw(st.sampled_from(["w", "d"]))
@@ -112,7 +112,7 @@ def _val(draw, depth, vars_, counter):
             return f"({draw(_val(depth - 1, vars_, counter))}, {draw(_val(depth - 1, vars_, counter))})"
         if k == 3 and draw(st.integers(0, 2)) == 0:
             # a ** spread in front of / between named entries (the key list of the Dict node then holds a None)
-            return f"{{**{draw(_val(depth - 1, vars_, counter))}, 'a': {draw(_val(depth - 1, vars_, counter))}, **other, 'b': {draw(_val(depth - 1, vars_, counter))}}}"
+            return f"{{**({draw(_val(depth - 1, vars_, counter))}), 'a': {draw(_val(depth - 1, vars_, counter))}, **other, 'b': {draw(_val(depth - 1, vars_, counter))}}}"
         if k == 3:
             return f"{{'a': {draw(_val(depth - 1, vars_, counter))}, 'b': {draw(_val(depth - 1, vars_, counter))}}}"
         if k == 4:
